@@ -15,6 +15,7 @@ def main():
         from .cli import Ctx
         mod = importlib.import_module('sa.rules.%s' % prop.lower())
         ctx = Ctx(repo, 'quick', 0)
+        ctx._run = mod.run
         results = mod.run(ctx)
         entries = report.known_for(prop)
         undecided, floors = [], []
